@@ -484,11 +484,75 @@ def rule_orient(ctx):
     return res.finish(3)
 
 
+def rule_mixweights(ctx):
+    """The mixing weights are column sums of the responsibilities divided by the number of samples: they sum to one because
+    every row of the responsibilities does (exp of log-responsibilities normalised by the row's log-sum-exp).  What is
+    handed to the parameter estimation is therefore that matrix and nothing rescaled - or the divisor is the sum of the
+    column sums."""
+    res = RuleResult("R-C10-mixweights", "the mixing weights are normalised by a divisor that matches the responsibilities they are summed from (row-stochastic matrix / sample count, or column sums / their sum)")
+    F = ctx.facts()
+    fns = [f for f in gmm_fns(F) if f["d"]["name"] == "m_step"]
+    if not fns:
+        res.missing_anchor("GaussianMixtureModel::m_step")
+    for fn in fns:
+        c = fn["crate"]
+        r = Render(c)
+        key = fn_key(fn)
+        res.instance(key)
+        inits = {}
+        for y in walk(fn["body"]):
+            if y.get("k") == "LetStmt" and y.get("init") is not None and y["pat"].get("k") == "Bind":
+                inits[y["pat"]["local"]] = y["init"]
+        asg = next((y for y in walk(fn["body"]) if y.get("k") == "Assign" and peel_refs(y["l"]).get("k") == "Field" and peel_refs(y["l"])["name"] == "weights"), None)
+        call = next((y for y in walk(fn["body"]) if y.get("k") == "Call" and (c.dfn(strip(y["f"]).get("def")) or {}).get("name") == "estimate_gaussian_parameters"), None)
+        if asg is None or call is None or len(call["args"]) < 2:
+            res.undecided("%s : shape" % key, "the store of the mixing weights / the call of estimate_gaussian_parameters was not found (fail closed)", fn_loc(fn))
+            continue
+        rhs = peel_refs(asg["r"])
+        if rhs.get("k") != "Binary" or rhs["op"] != "/":
+            res.undecided("%s : weights-form" % key, "`%s` is not a quotient (fail closed)" % r.e(rhs)[:40], fn_loc(fn, asg.get("ln")))
+            continue
+        den = rhs["r"]
+
+        def mentions(e, names, depth=0):
+            for y in walk(e):
+                if y.get("k") == "MethodCall" and y["name"] in names:
+                    return True
+                if y.get("k") == "Path" and y.get("local") in inits and depth < 3 and mentions(inits[y["local"]], names, depth + 1):
+                    return True
+            return False
+        if mentions(den, ("sum",)):
+            res.ok()
+            continue
+        if not mentions(den, ("nrows", "nsamples", "len_of")):
+            res.undecided("%s : divisor" % key, "`%s`: neither the sample count nor a sum (fail closed)" % r.e(den)[:40], fn_loc(fn, asg.get("ln")))
+            continue
+        resp = peel_refs(call["args"][1])
+        loc = resp.get("local") if resp.get("k") == "Path" else None
+        scaled = None
+        if loc is not None:
+            for y in walk(fn["body"]):
+                if y.get("k") == "AssignOp" and peel_refs(y["l"]).get("local") == loc:
+                    scaled = y
+                if y.get("k") == "MethodCall" and peel_refs(y["recv"]).get("local") == loc and y["name"] in ("mul_assign", "div_assign", "add_assign", "sub_assign", "zip_mut_with", "mapv_inplace", "map_inplace", "scaled_add", "assign", "fill", "axis_iter_mut", "rows_mut", "columns_mut", "iter_mut", "outer_iter_mut"):
+                    scaled = y
+            resp = peel_refs(inits.get(loc, resp))
+        if scaled is None:
+            for y in walk(resp):
+                if y.get("k") == "Binary" and y["op"] in ("*", "/", "+", "-"):
+                    scaled = y
+        if scaled is not None:
+            res.violate("%s : responsibilities-rescaled" % key, "the responsibilities handed to the parameter estimation are rescaled (`%s`) - their rows no longer sum to one - while the mixing weights are still their column sums divided by the number of samples: the weights of the fitted mixture do not sum to one" % r.e(scaled)[:50], fn_loc(fn, scaled.get("ln")))
+        else:
+            res.ok()
+    return res.finish(1)
+
+
 def rules(tier):
     from . import carry, c04
     from . import extrema
     from . import precision
-    return [rule_refresh, rule_err, rule_lse, rule_posterior, rule_memorder, rule_incumbent, rule_orient, rule_reg,
+    return [rule_mixweights, rule_refresh, rule_err, rule_lse, rule_posterior, rule_memorder, rule_incumbent, rule_orient, rule_reg,
             carry.make_clone_rule("R-C10-clone", {"linfa_clustering"}, 10), carry.make_setter_rule("R-C10-override", {"linfa_clustering"}, 10), c04.make_carry_rule("R-C10-carry", {"GmmParams"}, 6),
             extrema.make_rule("R-C10-extrema", "the row maximum the mixture's log-sum-exp is shifted by is a real maximum: the fold starts from -infinity / min_value or from data", lambda f: f["d"]["krate"] == "linfa_clustering" and "gaussian_mixture" in f["d"]["path"] + " " + (f["d"].get("self_adt") or "") or (f["d"]["krate"] == "linfa_clustering" and "GaussianMixture" in (f["d"].get("self_adt") or "")), 1, "the max fold of the log-sum-exp shift in GaussianMixtureModel"),
             precision.make_rule("R-C10-precision", lambda f: f["d"]["krate"] == "linfa_clustering" and any(x in f["d"]["path"] + " " + (f["d"].get("self_adt") or "") for x in ("gaussian_mixture", "GaussianMixture", "Gmm")), 35, "linfa-clustering gaussian_mixture"),
